@@ -24,4 +24,14 @@ func init() {
 		},
 		Undecided: []string{"that Wait eventually returns (liveness)", "BucketManager eviction: an evicted host gets a fresh full bucket (cross-object history, outside per-bucket contracts)", "50 ms sleep granularity"},
 	}
+	propInfo["C17"] = PropInfo{
+		Explanation: "Atomic effect summaries: sync/atomic operations are single atomic actions on a location whose value is havocked before each action (interference by any number of other goroutines); ghost counters adds/stores/atomicops record this execution's contribution. Proved in 64-bit bit-vector semantics: counter.incr/decr = exactly one atomic add of +step / -step (x + ^(s-1) = x - s), get = one load, reset = one store; rate.incr = one add to count and one to total, rate.get/reset never touch total; mean.add = count+1, sum+value; mean.get (IEEE-754) = loaded sum / loaded count, 0 when count = 0; rateBucket.incr/getTotal under the embedded mutex (held:* obligations) update exactly the key's *rate, create it if absent, leave every other key untouched; exported wrappers URLsCrawledIncr, SeedsFinishedIncr, HTTPReturnCodesIncr, *RoutinesIncr/Decr, MeanHTTPRespTimeAdd have the same unit effect on the global stats object. Since every mutation is an atomic add, any interleaving yields init + sum of contributions (mod 2^64): totals equal event counts. Worker gauges: preprocessor/archiver/postprocessor worker loops hold `adds(gauge) = entry + 1` at the loop head and `adds(gauge) = entry` at every return (deferred Decr on all exit paths); stage functions are opaque there, justified by call-graph obligations (reach:*) that no callee reaches the gauge's Incr/Decr.",
+		Assumptions: []string{
+			"sync/atomic operations are linearizable; sync.Mutex gives mutual exclusion",
+			"A-ghost-nowrap: callee effect summaries proved modulo 2^64 are used as mathematical +1/-1 in the worker contracts (a single worker never contributes 2^64 steps)",
+			"opaque stage functions (preprocess, archive, postprocess, closeBodies, pause.Subscribe/Unsubscribe, Item.CheckConsistency/GetShortID/GetDepth) change no stats state: checked structurally by the reach:* call-graph obligations (CHA over the module; calls through reflection are not seen)",
+			"the Prometheus mirror is outside the verified state (L-pure)",
+		},
+		Undecided: []string{"per-second rates (rate.get) - not part of the statement's totals", "that Stop joins all workers (WaitGroup) before the gauge is read: C03"},
+	}
 }
